@@ -134,4 +134,84 @@ func runC03(c *Ctx, emit func(cs *progs.Case) progs.Obs) {
 		}
 		c.Hist("c03_depth", fmt.Sprint(depth))
 	}
+	// ---- trees: siblings derived from the SAME parent value, hooks added one at a time ----
+	// (a parent whose hook slice had spare capacity would let one sibling's Hook() overwrite the other's)
+	nt := 60
+	if c.Thorough() {
+		nt = 1500
+	}
+	for i := 0; i < nt; i++ {
+		r := c.R.Fork()
+		g := &progs.Gen{R: r}
+		s := g.GenSettings()
+		seq := 0
+		mkHook := func(tag string) (progs.Cop, string, uint64) {
+			seq++
+			g.MarkID++
+			k := fmt.Sprintf("%s%d", tag, seq)
+			p := progs.Prim{M: "Bool", V: true}
+			return progs.Cop{K: "hook", Sub: []progs.Op{{K: "mark", ID: g.MarkID}, {K: "key", Key: []byte(k), P: &p}}}, k, g.MarkID
+		}
+		var parent []progs.Step
+		var pKeys []string
+		var pIDs []uint64
+		nh := r.Intn(7) // 0..6 hooks on the parent, each added by its own Hook() call
+		for j := 0; j < nh; j++ {
+			h, k, id := mkHook("ph")
+			st := progs.Step{Cops: []progs.Cop{h}}
+			if r.Chance(30) {
+				fp := progs.GenPrim(r, "Str")
+				fo := progs.Op{K: "key", Key: []byte(fmt.Sprintf("pc%d", j)), P: &fp}
+				st.Cops = append([]progs.Cop{{K: "op", O: &fo}}, st.Cops...)
+			}
+			parent = append(parent, st)
+			pKeys = append(pKeys, k)
+			pIDs = append(pIDs, id)
+		}
+		nk := 2 + r.Intn(3)
+		var kids []progs.Step
+		var kKeys [][]string
+		var kIDs [][]uint64
+		for j := 0; j < nk; j++ {
+			var st progs.Step
+			var ks []string
+			var ids []uint64
+			for q := 1 + r.Intn(2); q > 0; q-- {
+				h, k, id := mkHook(fmt.Sprintf("k%dh", j))
+				st.Cops = append(st.Cops, h)
+				ks = append(ks, k)
+				ids = append(ids, id)
+			}
+			kids = append(kids, st)
+			kKeys = append(kKeys, ks)
+			kIDs = append(kIDs, ids)
+		}
+		obs := progs.RunTree(s, g.Now, parent, kids, 1, nil, []byte("m"))
+		for j := range kids {
+			cs := &progs.Case{S: s, Now: g.Now, Steps: append(append([]progs.Step{}, parent...), kids[j]), Level: 1, Msg: []byte("m")}
+			o := obs[j]
+			term := cs.Coq(o)
+			c.AddCase(term, map[string]interface{}{"tree": "sibling " + fmt.Sprint(j), "case": cs.Describe()})
+			c.Count(term, true)
+			if !o.Written {
+				continue
+			}
+			v, err := oracle.CheckEventLine(o.Line)
+			if err != nil {
+				continue
+			}
+			var hookFields []string
+			for _, m := range v.Members {
+				if len(m.Key) > 1 && (m.Key[:2] == "ph" || m.Key[0] == 'k') {
+					hookFields = append(hookFields, m.Key)
+				}
+			}
+			want := append(append([]string{}, pKeys...), kKeys[j]...)
+			wantIDs := append(append([]uint64{}, pIDs...), kIDs[j]...)
+			if fmt.Sprint(hookFields) != fmt.Sprint(want) || fmt.Sprint(o.Marks) != fmt.Sprint(wantIDs) {
+				c.Violate(Violation{Key: "sibling-hooks-interfere", Monitor: "hooks-once-tree", Desc: fmt.Sprintf("sibling %d of %d (parent with %d hooks added one at a time): hook fields %q marks %v, want %q %v", j, nk, nh, hookFields, o.Marks, want, wantIDs), Case: cs.Describe(), Observed: hookFields, Expected: want})
+			}
+		}
+		c.Hist("c03_tree_parent_hooks", fmt.Sprint(nh))
+	}
 }
